@@ -119,7 +119,13 @@ def run(ctx):
         cases.append(("corpus:" + os.path.relpath(f, REPO), open(f, "rb").read(), {}))
     plan = [("plain", ctx.budget(60, 1200)), ("plain-nocomment", ctx.budget(20, 400)), ("shuffled-plain", ctx.budget(40, 900)),
             ("ws-adversarial", ctx.budget(80, 1800)), ("adversarial", ctx.budget(110, 3600)),
-            ("plain-blockcomments", ctx.budget(60, 2000)), ("plain-onecomment", ctx.budget(40, 1500))]
+            ("plain-blockcomments", ctx.budget(60, 2000)), ("plain-onecomment", ctx.budget(40, 1500)),
+            ("plain-onelinecomment", ctx.budget(80, 3000))]
+    # one `//` comment in every gap between two tokens of every declaration form of prnlib.LC_SNIPPETS: all the gaps
+    # before a closing token or a separator, and (quick tier) a quarter of the others
+    for src, nxt in prnlib.lc_catalogue():
+        if nxt in prnlib.CLOSERS or ctx.tier == "thorough" or rng.chance(1, 4):
+            cases.append(("lc-position", src.encode(), {}))
     for strat, n in plan:
         for _ in range(n):
             if strat == "ws-adversarial":
@@ -137,7 +143,13 @@ def run(ctx):
                 "body, last in file; in a third of the files also after `{`, on the next declaration's line, inside a "
                 "declaration), plain-onecomment (the same with exactly one comment, at a declaration boundary: the comment of the "
                 "formatted output is also compared with the Coq model of emitBlockComment), ws-adversarial (arbitrary whitespace, "
-                "no comments) and adversarial (comments anywhere); "
+                "no comments) and adversarial (comments anywhere), "
+                "lc-position (a catalogue of declaration forms - message literals empty / non-empty / nested / in arrays, array "
+                "literals, compact options with one / several entries, option values of every kind, ranges, type arguments, rpc "
+                "signatures and bodies, paths - with ONE `//` comment in EVERY gap between two adjacent tokens, the declaration "
+                "continuing on the next line: every gap before `;` `,` `]` `}` `>` `)`, in the quick tier a quarter of the others) "
+                "and plain-onelinecomment (generated files, a third of the message literals empty, one `//` comment in a gap drawn "
+                "by class: token before x token after, two in three before a closing token or separator); "
                 "each source x each preset (default, legacy) is one evaluation; distinct = distinct (source, preset); non-trivial = "
                 "the source parses without errors")
     ins = [dict({"s": s.hex(), "want": ["fmt", "compile", "bc"]}, **extra) for _, s, extra in cases]
@@ -154,15 +166,32 @@ def run(ctx):
             ctx.count(("rejected", src), False, strat.split(":")[0] + "-rejected")
             continue
         cls = prnlib.layout_class(o["tree"], strat, o.get("decl_info"))
+        if strat == "lc-position":
+            hist[src] = 1            # (counts the catalogue cases seen so far: a third of them go to the Coq comparison)
         compiles = "compile_err" not in o
         for preset, r in sorted(o["fmt"].items()):
             ctx.count((preset, src), True, strat.split(":")[0] + ("" if compiles else "-nocompile"))
             f1, f2 = bytes.fromhex(r["f1"]), bytes.fromhex(r["f2"])
             rp = dict(rep, preset=preset, formatted=f1.decode("utf-8", "replace")[:4000], layout_class=cls)
             nv = len(ctx.violations)
+            # A `//` comment inside a declaration: the class of the known findings only where the comment sits in a
+            # position the formatter does not protect (prnlib.LC_PROTECTED lists the protected ones).  cls_m: for the
+            # meaning oracle, judged on the comments that grew in the output (they swallowed tokens) when there are
+            # any; cls_i: for idempotence, judged on every such comment of the file.
+            cls_m = cls_i = cls
+            if cls == "line-comment-inside-declaration":
+                poss = prnlib.lc_positions(o["tree"])
+                cls_m, who_m = prnlib.lc_class(poss, preset, "meaning", o["tree"], r.get("tree1"))
+                if strat in ("lc-position", "plain-onelinecomment"):
+                    # (only where the comment is the file's one irregularity: elsewhere a second pass may differ for
+                    # reasons of the white space around, which the known classes explain)
+                    cls_i, who_i = prnlib.lc_class(poss, preset, "idem", None, None)
+                rp["line_comment_positions"] = sorted(set(x["pos"] for x in poss))
+                if who_m:
+                    rp["comment_that_swallowed_tokens_at"] = who_m
             # direct oracle 1: the formatted file means the same
             if r["nerr2"] != 0:
-                ctx.violation("format-changes-meaning:" + cls, "the formatted output does not parse: " + str(r.get("err2")), rp)
+                ctx.violation("format-changes-meaning:" + cls_m, "the formatted output does not parse: " + str(r.get("err2")), rp)
             elif compiles:
                 c = r.get("cmp")
                 if c == "dependency-permutation":
@@ -170,13 +199,13 @@ def run(ctx):
                                   "the descriptor of the formatted file differs only by a permutation of `dependency` "
                                   "(public/weak indices re-mapped consistently)", rp)
                 elif c == "formatted-does-not-compile":
-                    ctx.violation("format-changes-meaning:" + cls, "the formatted output does not compile: " + str(r.get("cmp_err")), rp)
+                    ctx.violation("format-changes-meaning:" + cls_m, "the formatted output does not compile: " + str(r.get("cmp_err")), rp)
                 elif c == "different":
                     if r.get("cmp_norm") == "equal-modulo-dependency-and-option-field-order":
                         ctx.violation("format-reorders-options",
                                       "the descriptors differ only in the order of dependencies and of uninterpreted option fields", rp)
                     else:
-                        ctx.violation("format-changes-meaning:" + cls, "the formatted output compiles to different descriptors (first "
+                        ctx.violation("format-changes-meaning:" + cls_m, "the formatted output compiles to different descriptors (first "
                                       "differing field: %s)" % r.get("cmp_field"), rp)
             # direct oracle 2: idempotence
             if f1 != f2:
@@ -187,7 +216,7 @@ def run(ctx):
                 # second pass while every token and every `//` comment stayed the same: that is its own key, never
                 # attributed to a class of the source.
                 idem = r.get("idem") or {}
-                key, what = "format-not-idempotent:" + cls, "formatting the formatted output changes it (%s)" % idem.get("kind")
+                key, what = "format-not-idempotent:" + cls_i, "formatting the formatted output changes it (%s)" % idem.get("kind")
                 extra = {}
                 if idem.get("kind") == "block-comment-text":
                     key = "format-not-idempotent:block-comment-text-changes"
@@ -216,7 +245,7 @@ def run(ctx):
                         ctx.corr_break("block-comment-text", dict(rp, comment=sc[0].decode("utf-8", "replace")),
                                        {"block_comments_in_output": len(bcs)})
             # correspondence: the declaration order and the token sequence of the output (only when it parses)
-            if r["nerr2"] == 0 and len(src) < 8000:
+            if r["nerr2"] == 0 and len(src) < 8000 and (strat != "lc-position" or (len(hist) + (preset == "legacy")) % 3 == 0 or len(ctx.violations) > nv):
                 t = fc_term(o, preset)
                 if t is not None:
                     terms.append(t)
